@@ -358,26 +358,28 @@ def run_sched(rep, tier, seed, cmds, nm, replay=None):
 
 
 def selftest(rep, cmds):
-    """self-tests of the extractor; the result is cached by the hash of its sources (they take ~15 s)"""
+    """self-tests of the extractor and of the instrumenter; each result is cached by the hash of the tool's sources"""
     import hashlib
-    d = os.path.join(vf.HARNESS, "tools", "skel")
-    h = hashlib.sha256()
-    for f in ("main.go", "skel_test.go", "go.mod"):
-        h.update(open(os.path.join(d, f), "rb").read())
-    stamp = os.path.join(vf.VERIF, "out", "skel_selftest.ok")
-    key = h.hexdigest()
-    cmds.append("cd harness/tools/skel && go test ./...   (cached by source hash)")
-    if os.path.exists(stamp) and open(stamp).read().strip() == key:
-        rep.obligation("selftest:harness/tools/skel", True)
-        return
-    rc, o = vf.sh(["go", "test", "-count=1", "./..."], cwd=d, env=vf.GOENV, timeout=900)
-    rep.obligation("selftest:harness/tools/skel", rc == 0)
-    if rc == 0:
-        os.makedirs(os.path.dirname(stamp), exist_ok=True)
-        with open(stamp, "w") as f:
-            f.write(key)
-    else:
-        rep.notes.append("extractor self-tests failed: " + o[-1500:])
+    for name, files in (("skel", ("main.go", "skel_test.go", "go.mod")),
+                        ("instr", ("main.go", "instr_test.go", "go.mod", "../../sched/sched.go"))):
+        d = os.path.join(vf.HARNESS, "tools", name)
+        h = hashlib.sha256()
+        for f in files:
+            h.update(open(os.path.join(d, f), "rb").read())
+        stamp = os.path.join(vf.VERIF, "out", "%s_selftest.ok" % name)
+        key = h.hexdigest()
+        cmds.append("cd harness/tools/%s && go test ./...   (cached by source hash)" % name)
+        if os.path.exists(stamp) and open(stamp).read().strip() == key:
+            rep.obligation("selftest:harness/tools/" + name, True)
+            continue
+        rc, o = vf.sh(["go", "test", "-count=1", "./..."], cwd=d, env=vf.GOENV, timeout=900)
+        rep.obligation("selftest:harness/tools/" + name, rc == 0)
+        if rc == 0:
+            os.makedirs(os.path.dirname(stamp), exist_ok=True)
+            with open(stamp, "w") as f:
+                f.write(key)
+        else:
+            rep.notes.append("%s self-tests failed: %s" % (name, o[-1500:]))
 
 
 def custom(P, tier, seed, replay=None):
